@@ -236,7 +236,7 @@ impl Property for C08 {
         // singly-declared symbols instead of reporting the same root causes for ever.  The quick tier stays strict.
         if let Verdict::Fail(f) = &v {
             let thorough = std::env::var("VERIF_TIER_EFFECTIVE").map(|t| t == "thorough").unwrap_or(false);
-            if thorough && !local.open.contains(&f.sig) && !f.sig.contains("index-leak") && !f.sig.contains("index-growth") && has_multi_file_symbol(&c.ws) {
+            if thorough && !local.open.contains(&f.sig) && !f.sig.contains("index-leak") && has_multi_file_symbol(&c.ws) {
                 return Verdict::fail("family:multi-file-symbol-order-dependence", format!("[unclassified shape {}] {}", f.sig, f.msg));
             }
         }
